@@ -115,9 +115,11 @@ type Analysis struct {
 	dep    map[*ssa.Function]map[ssa.Value]Deps
 	extra  map[*ssa.Function]map[ssa.Value]Deps
 	tup    map[fnKey]Deps
+	esc    map[*ssa.Alloc]bool
 	invokeSink func(site ssa.CallInstruction, inScope bool) []int
 	Taint  map[string]string // tainted cell -> why (one write site)
 	Raw    map[string]bool   // cells from which a sink is reached raw
+	RawWhy map[string]string // raw cell -> the effect through which it reaches a sink
 	Prim   map[string]bool   // transparent cells (locals, closure variables, call-back parameters) that hold a marked origin directly
 	funcs  []*ssa.Function
 }
@@ -207,7 +209,7 @@ func New(p *load.Prog, g *cg.Graph, cfg Config) *Analysis {
 // as sinks: invokeSink returns the written argument indices.
 func NewWithInvokeSink(p *load.Prog, g *cg.Graph, cfg Config, invokeSink func(site ssa.CallInstruction, inScope bool) []int) *Analysis {
 	a := &Analysis{invokeSink: invokeSink, P: p, G: g, Cfg: cfg, Sum: map[*ssa.Function]*Summary{}, Closed: map[string]*Effect{}, alias: map[string]string{},
-		dep: map[*ssa.Function]map[ssa.Value]Deps{}, extra: map[*ssa.Function]map[ssa.Value]Deps{}, Taint: map[string]string{}, Raw: map[string]bool{}, Prim: map[string]bool{}, tup: map[fnKey]Deps{}}
+		dep: map[*ssa.Function]map[ssa.Value]Deps{}, extra: map[*ssa.Function]map[ssa.Value]Deps{}, Taint: map[string]string{}, Raw: map[string]bool{}, Prim: map[string]bool{}, RawWhy: map[string]string{}, esc: map[*ssa.Alloc]bool{}, tup: map[fnKey]Deps{}}
 	for _, fn := range p.Repo {
 		a.funcs = append(a.funcs, fn)
 		a.Sum[fn] = &Summary{Open: map[string]*Effect{}}
@@ -248,6 +250,9 @@ func NewWithInvokeSink(p *load.Prog, g *cg.Graph, cfg Config, invokeSink func(si
 func (a *Analysis) cellOfAddr(v ssa.Value) string {
 	switch x := v.(type) {
 	case *ssa.Alloc:
+		if !a.escapes(x) {
+			return "" // handled as a value of its function (keeps parameter atoms symbolic per call site)
+		}
 		return fmt.Sprintf("local:%p", x)
 	case *ssa.FreeVar:
 		return fmt.Sprintf("fv:%p", x)
@@ -434,6 +439,7 @@ func (a *Analysis) transfer(fn *ssa.Function, ins ssa.Instruction) bool {
 				// element of a slice/array value, or of a local array cell
 				d := Deps{}
 				d.addAll(a.depOf(fn, ad.X))
+				d.addAll(a.depOf(fn, baseAlloc(ad.X)))
 				if c := a.cellOfAddr(ad.X); c != "" {
 					d.addAll(a.cellAtom(c))
 				}
@@ -442,7 +448,7 @@ func (a *Analysis) transfer(fn *ssa.Function, ins ssa.Instruction) bool {
 				if c := a.cellOfAddr(x.X); c != "" {
 					return a.setDep(fn, x, a.cellAtom(c))
 				}
-				return a.setDep(fn, x, a.depOf(fn, x.X))
+				return a.setDep(fn, x, a.depOf(fn, baseAlloc(x.X)))
 			}
 		}
 		if x.Op == token.ARROW {
@@ -482,8 +488,8 @@ func (a *Analysis) transfer(fn *ssa.Function, ins ssa.Instruction) bool {
 					ch = true
 				}
 			} else {
-				// store through a pointer value (e.g. *p = v with p a parameter): the pointee is part of the pointer's value
-				if a.addExtra(fn, x.Addr, d) {
+				// store through a pointer value (e.g. *p = v with p a parameter) or into a non-escaping local: the pointee is part of the value
+				if a.addExtra(fn, baseAlloc(x.Addr), d) {
 					ch = true
 				}
 			}
@@ -529,6 +535,7 @@ func (a *Analysis) transfer(fn *ssa.Function, ins ssa.Instruction) bool {
 	case *ssa.Slice:
 		d := Deps{}
 		d.addAll(a.depOf(fn, x.X))
+		d.addAll(a.depOf(fn, baseAlloc(x.X)))
 		if c := a.cellOfAddr(x.X); c != "" {
 			d.addAll(a.cellAtom(c))
 		}
@@ -924,6 +931,11 @@ func (a *Analysis) solveCells() {
 			for at := range e.Deps {
 				if at[0] == 'C' && !a.Raw[at[2:]] {
 					a.Raw[at[2:]] = true
+					if e.Kind == "sink" {
+						a.RawWhy[at[2:]] = "read by the sink (" + e.Arg + ") at " + a.P.Pos(e.Instr.Pos()) + " in " + load.FuncName(e.Fn)
+					} else {
+						a.RawWhy[at[2:]] = "stored into " + e.Cell + " at " + a.P.Pos(e.Instr.Pos()) + " in " + load.FuncName(e.Fn)
+					}
 					ch = true
 				}
 			}
@@ -987,4 +999,82 @@ func (a *Analysis) RawParam(fn *ssa.Function, i int) bool {
 		}
 	}
 	return false
+}
+
+// RawChain explains how a cell reaches a sink.
+func (a *Analysis) RawChain(cell string) []string {
+	var out []string
+	seen := map[string]bool{}
+	for cell != "" && !seen[cell] && len(out) < 12 {
+		seen[cell] = true
+		why, ok := a.RawWhy[cell]
+		if !ok {
+			break
+		}
+		out = append(out, cell+" is "+why)
+		next := ""
+		if i := strings.Index(why, "stored into "); i == 0 {
+			rest := why[len("stored into "):]
+			if j := strings.Index(rest, " at "); j > 0 {
+				next = rest[:j]
+			}
+		}
+		cell = next
+	}
+	return out
+}
+
+// escapes: the local variable cell is visible outside its function's own
+// loads and stores (captured by a closure, its address passed to a call,
+// stored somewhere or returned).
+func (a *Analysis) escapes(al *ssa.Alloc) bool {
+	if r, ok := a.esc[al]; ok {
+		return r
+	}
+	res := false
+	var visit func(v ssa.Value, depth int)
+	visit = func(v ssa.Value, depth int) {
+		if res || depth > 3 || v.Referrers() == nil {
+			return
+		}
+		for _, ref := range *v.Referrers() {
+			switch x := ref.(type) {
+			case *ssa.Store:
+				if x.Val == v {
+					res = true // the address itself is stored
+				}
+			case *ssa.UnOp, *ssa.DebugRef:
+			case *ssa.IndexAddr:
+				visit(x, depth+1)
+			case *ssa.FieldAddr:
+				visit(x, depth+1)
+			case *ssa.Slice:
+				// a slice of a local array is a value; its later uses are value uses
+			default:
+				res = true
+			}
+		}
+	}
+	visit(al, 0)
+	a.esc[al] = res
+	return res
+}
+
+// baseAlloc strips field/index addressing down to the variable it addresses.
+func baseAlloc(v ssa.Value) ssa.Value {
+	for i := 0; i < 6; i++ {
+		switch x := v.(type) {
+		case *ssa.IndexAddr:
+			v = x.X
+		case *ssa.FieldAddr:
+			if _, isAlloc := x.X.(*ssa.Alloc); isAlloc {
+				v = x.X
+			} else {
+				return v
+			}
+		default:
+			return v
+		}
+	}
+	return v
 }
